@@ -106,7 +106,8 @@ def run_family(pid, tier, family, invariants, props, cats, bounds, sample_n, j=1
         pad = pads[(common.seed() + len(prog['name'])) % len(pads)]
         n_ok, fails = histories.replay_all(prog, chosen, bindir, os.path.join(d, 'replay'), nworkers=10, cats=cats,
                                            pad=pad, watch=watch, jitter=jitter, repeat=repeat, cmd_timeout=cmd_timeout,
-                                           sched=sched, trace_dir=os.path.join(d, 'traces') if trace_locks else None)
+                                           sched=sched, trace_dir=os.path.join(d, 'traces') if trace_locks else None,
+                                           log_mode='0' if prog.get('no_viewer') else None)
         if trace_locks and os.path.isdir(os.path.join(d, 'traces')):
             for fn in sorted(os.listdir(os.path.join(d, 'traces'))):
                 trace_results.append({'sc': {'id': '%s:%s' % (prog['name'], fn)}, 'dir': os.path.join(d, 'traces'),
@@ -117,7 +118,9 @@ def run_family(pid, tier, family, invariants, props, cats, bounds, sample_n, j=1
             samples.append({'program': prog['name'],
                             'history': [list(histories.harness.step_input(s)) for s in chosen[0][0]],
                             'expected': [{k: v for k, v in s.items() if k in ('rc', 'ran', 'out')}
-                                         for s in chosen[0][0] if s['a'] in ('cmd', 'query')]})
+                                         for s in chosen[0][0] if s['a'] in ('cmd', 'query')] +
+                                        [{'rc': [s['c1']['rc'], s['c2']['rc']], 'ran': [s['c1']['ran'], s['c2']['ran']]}
+                                         for s in chosen[0][0] if s['a'] == 'par']})
         for alts, rep, dd in fails:
             last = rep[-1] if rep else {}
             text = 'program %s, history %s:\n' % (prog['name'], [e.get('input') for e in rep]) + \
